@@ -1287,7 +1287,7 @@ impl<D: TextDecorator> SubRenderer<D> {
 
     pub fn width_minus(&self, prefix_len: usize, min_width: usize) -> Result<usize> {
         let new_width = self.width.saturating_sub(prefix_len);
-        if new_width < min_width && !self.options.allow_width_overflow {
+        if (new_width < min_width || self.width < prefix_len) && !self.options.allow_width_overflow {
             return Err(TooNarrow);
         }
         Ok(new_width.max(min_width))
